@@ -305,7 +305,7 @@ theorem C24_binSaturated_iff (k : Kad) (bin : Nat) : (k.binSaturated bin).2 = tr
   · rename_i h; simp; omega
 
 /-- clause 3: an unprotected inbound peer (node not in bootnode mode, connection not forced) is
-admitted only if its bin is not oversaturated — and is rejected only if it is -/
+accepted only if its bin is not oversaturated — and is rejected only if it is -/
 theorem C24_admission_sound (k : Kad) (a : Addr) (kick : Option Addr)
     (hb : k.bootMode = false) (hp : k.isProtected a = false) :
     ((k.apply (.conn a false kick)).2.out = .ok ↔ ¬ Oversaturated k (proximity k.base a)) ∧
@@ -316,8 +316,8 @@ theorem C24_admission_sound (k : Kad) (a : Addr) (kick : Option Addr)
   simp only [hb, hp]
   cases h : (k.binSaturated (proximity k.base a)).2 <;> simp
 
-/-- forced connections and protected peers are always admitted (node not in bootnode mode) -/
-theorem C24_forced_or_protected_admitted (k : Kad) (a : Addr) (force : Bool) (kick : Option Addr)
+/-- forced connections and protected peers are always accepted (node not in bootnode mode) -/
+theorem C24_forced_or_protected_accepted (k : Kad) (a : Addr) (force : Bool) (kick : Option Addr)
     (hb : k.bootMode = false) (h : force = true ∨ k.isProtected a = true) :
     (k.apply (.conn a force kick)).2.out = .ok := by
   simp only [Kad.apply]
@@ -345,7 +345,7 @@ private def fill : List Ev :=
    .conn (p 4) false none, .reach (p 4) 1, .conn (p 5) false none, .reach (p 5) 1]
 
 /- a bin does get oversaturated (BinMaxPeers 5): the next unprotected inbound peer is rejected,
-a forced one admitted -/
+a forced one accepted -/
 set_option maxRecDepth 100000 in
 example : ((run (Kad.new b0 5 false []) fill).apply (.conn (p 6) false none)).2.out = .oversat := by decide
 set_option maxRecDepth 100000 in
